@@ -3,6 +3,7 @@ import TwistedProps.C14.Mono
 import TwistedProps.C14.Delivery
 import TwistedProps.C14.HalfClose
 import TwistedProps.C14.CloseLive
+import TwistedProps.C14.Gen
 /-!
 C14 — transport write buffering delivers bytes exactly once and honours producers.
 
@@ -29,6 +30,9 @@ nesting depth, every `SEND_LIMIT` / `bufferSize`.
 
 The model follows the repaired `FileDescriptor.registerProducer` (it applies `_maybePauseProducer`); on the
 unrepaired tree `write(b"x"); registerProducer(p, True)` with `bufferSize = 0` falsified the pause clause.
+
+`gen_*`: the predicate `_isSendBufferFull` is regenerated from abstract.py on every run (`Generated.FD`,
+harness/py2lean.py) and proved equal to the model's `isSendBufferFull` (`TwistedProps/C14/Gen.lean`).
 -/
 open Twisted.Transport.FD
 namespace TwistedProps.C14
@@ -363,6 +367,42 @@ theorem resumed_when_drained (d sl bs : Nat) (ps : List Producer) (ops : List Op
     (hp : (reach d sl bs ps ops).producer.isSome) (hl : (reach d sl bs ps ops).lastCall = some .pause) :
     (reach d sl bs ps ops).unsent ≠ [] :=
   ((core_reachable d sl bs ps ops).flag hp hl).2
+
+/-! ### the translator-regenerated `_isSendBufferFull` (see `TwistedProps/C14/Gen.lean`) -/
+
+/-- generated `_isSendBufferFull` = the model's predicate on every state -/
+theorem gen_isSendBufferFull (s : St) :
+    Generated.FD.isSendBufferFull s.dataBuffer.length s.tempLen s.bufferSize = isSendBufferFull s :=
+  gen_isSendBufferFull_eq s
+
+/-- the model's `_maybePauseProducer` decides with the GENERATED predicate -/
+theorem gen_maybePauseProducer (cb : Cb) (s : St) :
+    maybePauseProducer cb s =
+      if s.producer.isSome && s.streaming then
+        if Generated.FD.isSendBufferFull s.dataBuffer.length s.tempLen s.bufferSize
+        then callProducer cb .pause { s with producerPaused := true } else s
+      else s := by
+  rw [gen_isSendBufferFull_eq]; rfl
+
+/-- whenever the buffers are consistent (`Buf`), "more than `bufferSize` bytes pending" makes the generated
+    predicate true -/
+theorem gen_full_of_over (s : St) (hb : Buf s) (hover : s.bufferSize < s.unsent.length) :
+    Generated.FD.isSendBufferFull s.dataBuffer.length s.tempLen s.bufferSize = true := by
+  rw [gen_isSendBufferFull_iff]
+  have h1 := hb.tempLen
+  simp only [St.unsent, List.length_append, List.length_drop] at hover
+  omega
+
+/-- in every reachable state, "more than `bufferSize` bytes pending" (the hypothesis of
+    `streaming_producer_paused_when_over_bufferSize`) makes the generated predicate true: the code's test is
+    never the weaker one -/
+theorem gen_full_when_over_bufferSize (d sl bs : Nat) (ps : List Producer) (ops : List Op)
+    (hover : (reach d sl bs ps ops).bufferSize < (reach d sl bs ps ops).unsent.length) :
+    Generated.FD.isSendBufferFull (reach d sl bs ps ops).dataBuffer.length (reach d sl bs ps ops).tempLen
+      (reach d sl bs ps ops).bufferSize = true :=
+  gen_full_of_over _ (core_reachable d sl bs ps ops).buf hover
+
+example : Generated.FD.isSendBufferFull 3 2 4 = true ∧ Generated.FD.isSendBufferFull 2 2 4 = false := by decide
 
 /-! ### Non-vacuity: a concrete history exercising every clause -/
 
